@@ -7,7 +7,8 @@
    repository's own analyze/codegen. *)
 From Coq Require Import List Permutation Sorted.
 From QV Require Import Rt.Prelude Rt.Amount Macro.Defs Macro.Casing Macro.Impls Macro.Analyze Gen.Prefixes Gen.Catalogue
-  Amount.F64 Proofs.Instances Proofs.Sort Proofs.C09 Proofs.DerivedCat Proofs.C11.
+  Amount.F64 Proofs.Instances Proofs.Sort Proofs.C09 Proofs.DerivedCat Proofs.C11 Proofs.SortPerm.
+From Flocq Require IEEE754.Binary.
 Import ListNotations.
 
 (** the stable sort (any stable algorithm computes this list): permutation,
@@ -40,6 +41,36 @@ Theorem C11_units_with_reference_unit : forall a r us, an_units a = sort_stable 
   exists rest, List.filter (same_key key_gt r) (an_units a) = r :: rest.
 Proof. exact ref_units. Qed.
 
+(** "Reordering the unit attributes changes nothing observable except the relative order of units
+    that share a scale": permuting the attributes of a definition gives the same verdict, the same
+    reference unit, a permutation of the same units and the same sequence of keys ... *)
+Theorem C11_attribute_order_general : forall d1 d2 a1,
+  Permutation (rd_attrs d1) (rd_attrs d2) -> analyze d1 = Some a1 ->
+  (an_ref a1 <> None -> Forall key_finite (an_units a1)) ->
+  exists a2, analyze d2 = Some a2 /\ an_ref a2 = an_ref a1 /\
+    Permutation (an_units a1) (an_units a2) /\
+    match an_ref a1 with
+    | None => Forall2 (fun a b => same_key name_gt a b = true) (an_units a1) (an_units a2)
+    | Some _ => Forall2 (fun a b => same_key key_gt a b = true) (an_units a1) (an_units a2)
+    end.
+Proof. exact analyze_perm_general. Qed.
+
+(** ... and exactly the same result when no two units share a name (no reference unit) resp. a scale value *)
+Theorem C11_attribute_order_names : forall d1 d2 a1,
+  Permutation (rd_attrs d1) (rd_attrs d2) ->
+  analyze d1 = Some a1 -> an_ref a1 = None ->
+  NoDup (map (fun u => name_of_ident (ud_ident u)) (an_units a1)) ->
+  analyze d2 = Some a1.
+Proof. exact analyze_perm_noref_names. Qed.
+
+Theorem C11_attribute_order_scales : forall d1 d2 a1,
+  Permutation (rd_attrs d1) (rd_attrs d2) ->
+  analyze d1 = Some a1 -> an_ref a1 <> None ->
+  Forall key_finite (an_units a1) ->
+  NoDup (map (fun u => Binary.B2R 53 1024 (scale_key u)) (an_units a1)) ->
+  analyze d2 = Some a1.
+Proof. exact analyze_perm_ref_values. Qed.
+
 Theorem C11_path_selection : forall a,
   expected_path a = match an_units a with [_] => PSingle | _ => match an_ref a with Some _ => PRef | None => PNoRef end end.
 Proof. exact path_selection. Qed.
@@ -53,6 +84,9 @@ Theorem C11_model_is_generator :
 Proof. exact (conj all_registry_ok (conj all_derived_rows_ok all_wiring_ok)). Qed.
 
 Print Assumptions C11_stable_sort.
+Print Assumptions C11_attribute_order_general.
+Print Assumptions C11_attribute_order_names.
+Print Assumptions C11_attribute_order_scales.
 Print Assumptions C11_analyze_shape.
 Print Assumptions C11_units_without_reference_unit.
 Print Assumptions C11_units_with_reference_unit.
